@@ -206,6 +206,18 @@ package virtual
 //@   props C13
 //@   ensures failure-modifies-nothing: r1 != StatusOK ==> forall c ref :: touches(c) == 0
 //@   ensures success-is-a-modification: r1 == StatusOK ==> touches(&i.contents) >= 1 && r0.After == r0.Before + 1 && r0.After == i.contents.changeID
+//@   at call isDeletable#1 ghostset listdelta[1] = ite(r0, 1, 0)
+//@   at call isDeletable#1 assert emptiness-is-judged-on-the-directory-being-removed-with-the-hidden-file-rule: arg0 == childContents
+//@   at call markDeleted#1 assert a-directory-is-removed-only-if-nothing-but-hidden-files-is-left-in-it: listdelta(1) == 1 && removeDirectory
+//@   at call Unlink#1 assert a-file-is-removed-only-when-files-may-be-removed: removeLeaf
+//@ func (*inMemoryPrepopulatedDirectory).ReadDir
+//@   props C13 C10
+//@   at call dyn#1 assert only-leaves-can-be-hidden-from-a-listing: directory == nil
+//@ func (*inMemoryDirectoryContents).createChildren
+//@   props C13
+//@   at call attach#1 assert entries-are-filed-under-the-normalised-name: arg2 == name && arg3 == normalizedName
+//@   at call attachNewDirectory#1 assert entries-are-filed-under-the-normalised-name: arg2 == name && arg3 == normalizedName
+//@   at call Normalize#1 assert the-name-that-is-normalised-is-the-name-of-the-entry: arg1 == name
 //@ func (*inMemoryPrepopulatedDirectory).VirtualRename
 //@   props C13
 //@   ensures failure-modifies-nothing: r2 != StatusOK ==> forall c ref :: touches(c) == 0
@@ -412,6 +424,15 @@ package virtual
 //@             r1 == nil ==> len(r0) == len(directory.Directories) + len(directory.Files) + len(directory.Symlinks)
 //@   ensures leaves-created-before-a-failure-are-given-back: r1 != nil ==> leavesgivenback(nil) == leavesmade(nil)
 //@   ensures no-leaf-is-given-back-on-success: r1 == nil ==> leavesgivenback(nil) == 0
+
+// The identity under which an input file is deduplicated covers everything that
+// distinguishes two files of the input root: the blob and the executable bit
+// (C17: the same blob used as a program and as data stays two different files).
+//@ func (*statelessHandleAllocatingCASFileFactory).LookupFile
+//@   props C17
+//@   at call New#1 assert the-identity-of-an-input-file-covers-its-contents-and-its-executable-bit:
+//@             as(arg1, *casFileID).isExecutable == isExecutable && *(&as(arg1, *casFileID).blobDigest) == blobDigest
+//@   at call LookupFile#1 assert the-file-is-created-with-the-requested-executable-bit: arg2 == isExecutable && arg1 == blobDigest
 
 // NFSv4 handle allocator: identical immutable (CAS backed) files share one leaf
 // per inode number. Every directory entry that is handed the shared leaf is
